@@ -271,7 +271,8 @@ pub fn codec(out_dir: &str) -> i32 {
             }
             // short sequences also behind long ASCII runs, ending / starting around the sizes a decoder might work in blocks of
             let long_run: Vec<u8> = vec![b'A'; 4100];
-            if !b.is_empty() && b.len() <= 3 {
+            let long_placements = std::env::var("LS_CODEC_SHORT").is_err();
+            if long_placements && !b.is_empty() && b.len() <= 3 {
                 for blk in [32usize, 64, 100, 128, 256, 512, 1000, 1024, 2048, 4096] {
                     for n in blk - 3..=blk + 1 {
                         pads.push((&long_run[..n], b"ZZ"));
@@ -354,7 +355,7 @@ pub fn codec(out_dir: &str) -> i32 {
                 pads16.extend([(12, 0), (13, 0), (14, 0), (15, 0), (16, 0)]);
             }
             // short sequences also behind long ASCII runs: a pair or a lone surrogate across the edge of any block a decoder might work in
-            if !u.is_empty() && u.len() <= 2 {
+            if std::env::var("LS_CODEC_SHORT").is_err() && !u.is_empty() && u.len() <= 2 {
                 for blk in [32usize, 64, 100, 128, 256, 512, 1000, 1024, 2048, 4096] {
                     for n in blk - 3..=blk + 1 {
                         pads16.push((n, 2));
